@@ -66,7 +66,7 @@ def c02(tier, seed, work):
                store_consts(CfgName="single", Buckets={"bkt1"}, Bodies={"x1"},
                             OpNames={"DeleteBucket", "ForceDelete", "PutObject", "DeleteObject", "GetObject", "ListObjects"}),
                ["singlemem", "singleos"], **st)
-    repotests_stage(rep, work, "repository-tests (s3mem state trace)")
+    repotests_stage(rep, work, "repository-tests state trace:", which="mem")
     # the Go API path: the same histories through the Backend methods, without the HTTP front end (harness/api.go)
     tour_stage(rep, work, "go-api-store", "MC_Store",
                store_consts() if thorough else store_consts(KeySetName="nest2", Bodies={"x1"}), ALL4, addr="api", **st)
@@ -124,7 +124,7 @@ def c05(tier, seed, work):
                ["mem"], memtrace=tier == "thorough", **st)
     # direction B from inside the backend: the repository's own tests run with the s3mem state hooks on; every
     # mutation's resulting version stack must be an outcome of the specification (TraceMem.tla)
-    repotests_stage(rep, work, "repository-tests (s3mem state trace)")
+    repotests_stage(rep, work, "repository-tests state trace:", which="mem")
     # the Go API path: VersionedBackend methods called directly
     tour_stage(rep, work, "go-api-ver-1k-2v", "MC_Store",
                store_consts(Buckets={"bkt1"}, KeySetName="a", CfgName="mem", OpNames=VER_OPS, MaxVids=2, Ghosts=False),
@@ -135,6 +135,11 @@ def c05(tier, seed, work):
                             OpNames={"CreateBucket", "PutObject", "DeleteObject", "PutVersioning",
                                      "DeleteObjectVersion", "GetObjectVersion"}),
                ["mem"], **st)
+    # one multi-delete request mixing entries with and without a version id, on two keys
+    tour_stage(rep, work, "ver-2k-mixed-multi-delete", "MC_Store",
+               store_consts(Buckets={"bkt1"}, KeySetName="ab", CfgName="memenabled", Bodies={"x1"}, MaxVids=3, Ghosts=False,
+                            OpNames={"PutObject", "DeleteMultiMixed", "DeleteObject", "GetObject"}),
+               ["mem"], small=True, **st)
     # direction B: long random version histories (status changes, version deletes, multi-deletes, copies) on three keys
     conc_stage(rep, work, "random-version-histories", ["mem"], [1], runs=24 if tier == "thorough" else 8, ops=0, keys=3,
                gated=False, seq=400 if tier == "thorough" else 200)
@@ -296,12 +301,22 @@ def c06(tier, seed, work):
                store_consts(Buckets={"bkt1"}, KeySetName="a", Bodies={"x1"}, OpNames=MP_OPS - {"ListParts", "ListUploads"},
                             MaxUploads=2, Ghosts=False),
                ["mem", "bolt", "multimem"], small=True, **st)
-    # histories that continue after a refused completion (the refusal must leave nothing behind, seen or unseen)
+    # direction B from inside the uploader: the repository's own tests with the uploader's state hooks on (TraceUp.tla)
+    repotests_stage(rep, work, "repository-tests state trace:", which="uploader")
+    # histories that continue after a refused completion (the refusal must leave nothing behind, seen or unseen);
+    # the uploader's internal state is traced and validated as well
     tour_stage(rep, work, "mp-after-refusal", "MC_Store",
                store_consts(Buckets={"bkt1"}, KeySetName="a", Bodies={"x1"}, PartBodies={"p1", "p2"}, MaxUploads=1, MaxList=2,
                             Ghosts=False, AfterRefusal=True,
                             OpNames={"CreateBucket", "Initiate", "UploadPart", "Complete", "Abort", "GetObject"}),
-               ["mem", "multimem"], small=True, **st)
+               ["mem", "multimem"], small=True, memtrace=thorough, **st)
+    if not thorough:
+        # (quick tier: the traced variant with one part body)
+        tour_stage(rep, work, "mp-after-refusal-traced", "MC_Store",
+                   store_consts(Buckets={"bkt1"}, KeySetName="a", Bodies={"x1"}, PartBodies={"p1"}, MaxUploads=1, MaxList=2,
+                                Ghosts=False, AfterRefusal=True,
+                                OpNames={"CreateBucket", "Initiate", "UploadPart", "Complete", "Abort"}),
+                   ["mem"], small=True, memtrace=True, **st)
     # three part numbers with a gap, lists that skip an uploaded part in the middle
     tour_stage(rep, work, "mp-gaps", "MC_Store",
                store_consts(Buckets={"bkt1"}, KeySetName="a", Bodies={"x1"}, PartNums={1, 2, 5}, PartBodies={"p1"},
@@ -348,7 +363,8 @@ def c14(tier, seed, work):
                store_consts(Buckets={"bkt1"}, KeySetName="a", Bodies={"x1"}, PartBodies={"p1"}, PartNums={1},
                             MaxUploads=4 if thorough else 3, MaxList=1, Ghosts=False,
                             OpNames={"CreateBucket", "Initiate", "UploadPart", "Complete", "Abort", "ListUploads"}),
-               ["mem", "multimem"], small=True, invariants=["TypeOK"])
+               ["mem", "multimem"], small=True, invariants=["TypeOK"], memtrace=True)
+    repotests_stage(rep, work, "repository-tests state trace:", which="uploader")
     # ListParts paging: part numbers with gaps, every max-parts, markers the server returns
     walk_stage(rep, work, "parts-walks", "MC_Store",
                store_consts(Buckets={"bkt1"}, KeySetName="a", PartNums={1, 2, 5} if not thorough else {1, 2, 3, 5},
@@ -647,6 +663,16 @@ def c10(tier, seed, work):
                store_consts(Buckets={"bkt1"}, KeySetName="hostile4", Bodies={"x1", "x2"} if tier == "thorough" else {"x1"}, CfgName="single",
                             OpNames=ops4 - {"CreateBucket", "DeleteBucket"}),
                ["singlemem", "singleos"], small=True, **st)
+    # long keys identical in their first 220 bytes keep their own content and metadata (not on a real directory: the
+    # metadata file name of such a key exceeds NAME_MAX there)
+    tour_stage(rep, work, "keys-long-shared-prefix", "MC_Store",
+               store_consts(Buckets={"bkt1"}, KeySetName="longshared", Bodies={"x1", "x2"},
+                            OpNames={"CreateBucket", "PutMeta", "PutMetaB", "GetObject", "HeadObject", "DeleteObject", "ListObjects"}),
+               ["mem", "bolt", "multimem"], small=True, **st)
+    tour_stage(rep, work, "keys-long-shared-prefix-single", "MC_Store",
+               store_consts(Buckets={"bkt1"}, KeySetName="longshared", Bodies={"x1", "x2"}, CfgName="single",
+                            OpNames={"PutMeta", "PutMetaB", "GetObject", "HeadObject", "DeleteObject", "ListObjects"}),
+               ["singlemem"], small=True, **st)
     # keys that are the directory of a stored key: read and deleted like any missing key, the stored keys untouched
     tour_stage(rep, work, "directory-keys", "MC_Store",
                store_consts(Buckets={"bkt1"}, KeySetName="dirkey", Bodies={"x1"},
